@@ -546,7 +546,9 @@ def unpack_collections(*args, traverse=True):
 
     def _unpack(expr):
         if is_dask_collection(expr):
-            tok = tokenize(expr)
+            # Collections of different types can share a token (an Item and
+            # its to_delayed()): each keeps its own type in the result
+            tok = f"{type(expr).__module__}.{type(expr).__qualname__}-{tokenize(expr)}"
             if tok not in repack_dsk:
                 repack_dsk[tok] = Task(
                     tok, getitem, TaskRef(collections_token), len(collections)
